@@ -317,18 +317,17 @@ def _top_stepcode_frame(stderr):
 
 
 def _recursion_frame(stderr):
-    """for stack exhaustion the interrupted frame is arbitrary; name the recursion by the stepcode function
-    that occurs most often in the reported stack (ties: alphabetically first)"""
+    """for stack exhaustion the interrupted frame is arbitrary (it depends on where exactly the stack ran out); name the
+    recursion by the alphabetically first stepcode function that occurs at least three times in the reported stack
+    (every member of the recursion cycle does), so the name does not depend on the interrupted frame"""
     counts = {}
     for m in _FRAME.finditer(stderr):
         func, loc = m.group(2), m.group(3) or ""
         if "/repo/" in loc or "/src/cl" in loc or "Sdai" in loc:
             f = _norm_func(func)
             counts[f] = counts.get(f, 0) + 1
-    if not counts:
-        return None
-    top = max(counts.values())
-    return sorted(f for f, c in counts.items() if c == top)[0]
+    rep = sorted(f for f, c in counts.items() if c >= 3)
+    return rep[0] if rep else None
 
 
 def end_class(end):
